@@ -142,7 +142,8 @@ def run_property(pid, tier, seed, root):
         kind, u, defs = job[0], job[1], job[2]
         sd = job[3] if len(job) > 3 else None
         return job, verus_run.run_unit(os.path.join(root, u['template']), build, defs, seed=sd,
-                                       threads=4, timeout=u.get('timeout', 900))
+                                       threads=4, timeout=u.get('timeout', 900),
+                                       tag_suffix=(f'_seed{sd}' if sd is not None else ''))
     alljobs = list(jobs)
     if tier == 'thorough':
         for j in jobs:
@@ -316,6 +317,18 @@ def run_property(pid, tier, seed, root):
                 known_lines.append(f'KNOWN-FINDING: property={pid} {k["what"]} [{text}]')
             else:
                 eprint(f'note: known finding {k["id"]} no longer reproduces ({text}); its entry in known_findings.json is stale')
+    # ---- message-text pins: one concrete execution per documented message on the real code
+    pins_ok = 0
+    pin_bad = []
+    if replay_mod is not None and cfg.get('pins'):
+        pins_ok, pin_bad = replay_mod.run_pins(pid, cfg['pins'], root)
+        for b in pin_bad:
+            if b.get('error'):
+                undecided.append(f'pin {b["oracle"]}: {b["error"]}')
+            else:
+                f = Failure(pid, 'pins', '', b['oracle'], 'documented-text-or-value', None,
+                            f"concrete execution on the real code: {json.dumps(b)[:600]}", [('cex', {'oracle': b['oracle'], 'args': b.get('args')})])
+                failures.append(f)
     if failures:
         # group by obligation
         seen = {}
@@ -346,6 +359,38 @@ def run_property(pid, tier, seed, root):
             viol_lines.append((line, oid))
             replay_records.append(rec)
         n_viol = len(viol_lines)
+
+    # ---- thorough tier: sensitivity self-test of the contracts (edits on an in-memory overlay, never on /repo)
+    sens = None
+    if tier == 'thorough' and not viol_lines and not undecided and not unsound:
+        import sensitivity
+        units = []
+        for u in cfg['verus_units']:
+            for mode in u['modes']:
+                units.append((os.path.join(root, u['template']), tuple(list(mode) + known_defines)))
+        sens, fatal = sensitivity.run(pid, units, root, build, seed)
+        for sid in fatal:
+            undecided.append(f'sensitivity: curated edit {sid} was NOT rejected — the contract is weaker than designed')
+        for sid in sens['curated']['stale']:
+            eprint(f'note: curated sensitivity edit is stale (source changed): {sid}')
+
+    # ---- thorough tier: exploration sweep of the real code against the executable spec transcriptions
+    # (independent of extraction and of the verifiers; a hit is a concrete failing input = violation)
+    sweep = None
+    if tier == 'thorough' and not viol_lines and replay_mod is not None:
+        try:
+            sweep = replay_mod.standin_search(pid, root, tier)
+        except Exception as e:
+            sweep = {'error': repr(e)}
+        if sweep and sweep.get('counterexample'):
+            oid = f'{pid}/exploration-sweep/{sweep["counterexample"]["oracle"]}'
+            rp = os.path.join(replay_dir, f'{pid}_{hashlib.sha1(oid.encode()).hexdigest()[:10]}.json')
+            rec = {'property': pid, 'obligation': oid, 'decided_by': 'exploration sweep of the real code (thorough tier); not a proof', 'tier': tier,
+                   'rerun': f'./check --replay {rp}'}
+            rec.update(sweep)
+            json.dump(rec, open(rp, 'w'), indent=1)
+            viol_lines.append((f'VIOLATION property={pid} replay={rp}', oid))
+            n_viol = len(viol_lines)
 
     # ---- stand-in when the deductive route is undecided (unsupported construct, lost anchor, timeout):
     # search the real code for a concrete failing input. A hit is a violation (it replays on the real
@@ -384,10 +429,11 @@ def run_property(pid, tier, seed, root):
             'extraction_rewrites': sorted(set(rewrites)),
             'bounded_checks': bounded,
             'known_findings_replayed': known_lines,
+            'message_pins': {'executed': len(cfg.get('pins', [])), 'ok': pins_ok, 'note': 'concrete executions on the real crates, one per documented message; not counted in obligations'},
             'not_covered': cfg.get('not_covered', []),
             'samples': samples,
             'failed_obligations': [oid for _, oid in viol_lines],
-            'undecided': undecided, 'unsound': unsound, 'standin_search': standin,
+            'undecided': undecided, 'unsound': unsound, 'standin_search': standin, 'sensitivity_self_test': sens, 'exploration_sweep': ({k: v for k, v in sweep.items() if k != 'counterexample'} if sweep else None),
             'explanation': ('obligations = proof obligations (AIR assert terms) generated by Verus for the functions of each unit '
                             'assembled from /repo on this run, plus the property checks of complete (loop-free, full-domain) Kani '
                             'harnesses on the real crates; bounded Kani harnesses are listed under bounded_checks and are not counted'),
